@@ -41,6 +41,8 @@ struct Ctx<'a> {
     attempts: usize,
     shutdown_seen: bool,
     events_after_shutdown: usize,
+    close_delivered: bool,
+    state_at_close: Option<gv::ImplState>,
     /// judge the client-level C05 rules instead of the C12 rules
     c05_mode: bool,
     surfaced: Vec<u64>,
@@ -91,6 +93,12 @@ impl<'a> Ctx<'a> {
             if name == "Stopped" {
                 self.stopped_events += 1;
                 self.stopped_since_last_start = true;
+            }
+            if name == "Attempt" && self.close_delivered {
+                // close is terminal: once the implementation has been handed the close request it may
+                // finish what is in progress, but it must not begin another connection attempt
+                let st = format!("{:?}", self.state_at_close);
+                self.viol("C12.R8-attempt-after-close-request", &[("state_at_close", st)], "a new connection attempt was started after the close request had been handed to the client implementation".into());
             }
             if name == "Attempt" {
                 self.attempts += 1;
@@ -152,7 +160,10 @@ impl<'a> Ctx<'a> {
                     self.requests_left = 0;
                     self.note("request close".into());
                     self.want = Want::Closed;
+                    self.state_at_close = Some(self.client.current_state());
                     self.call("close", |c| c.shutdown());
+                    self.close_delivered = true;
+                    self.l.count("c12.close_requests");
                 }
             }
             _ => {
@@ -196,7 +207,7 @@ fn run_history(r: &mut Rng, l: &mut Local, idx: u64, c05_mode: bool) {
     let mut cx = Ctx {
         r, l, client, v5, log: Vec::new(), lang: Lang::Idle, want: Want::Stopped, stops_requested_effective: 0, stopped_events: 0, attempts_after_stopped_without_start: false,
         stopped_since_last_start: false, last_lifecycle: None, requests_left: requests, dead: false, violated: false, seed_info, next_tag: 1, stop_with_disconnect_pending: false,
-        attempts: 0, shutdown_seen: false, events_after_shutdown: 0, c05_mode, surfaced: Vec::new(), next_token: 1,
+        attempts: 0, shutdown_seen: false, events_after_shutdown: 0, close_delivered: false, state_at_close: None, c05_mode, surfaced: Vec::new(), next_token: 1,
     };
     cx.l.count("c12.histories");
     let max_iterations = 600usize;
